@@ -60,6 +60,10 @@ type Case struct {
 	NoLogger bool `json:"noLogger,omitempty"`
 	// NoQueue serves the case without a queue group.
 	NoQueue bool `json:"noQueue,omitempty"`
+	// ServeTwice calls Serve a second time on the running service (must be refused).
+	ServeTwice bool `json:"serveTwice,omitempty"`
+	// NoReplyDup publishes every request once more without reply subject beforehand.
+	NoReplyDup bool `json:"noReplyDup,omitempty"`
 }
 
 func (c Case) String() string {
@@ -100,6 +104,8 @@ type Obs struct {
 
 // Result of running a case.
 type Result struct {
+	// NoReplyPubs lists what the service published in reaction to messages without reply subject.
+	NoReplyPubs []string
 	Obs       []Obs
 	Log       []fakeconn.Entry
 	ProbeOK   bool
@@ -316,7 +322,35 @@ func Run(c *Case) *Result {
 		return out
 	}
 	listened := int64(0)
+	if c.ServeTwice {
+		// Serve on a running service is refused and must leave it running
+		if err := s.Serve(fakeconn.New()); err == nil {
+			out.StartErr = fmt.Errorf("a second Serve call on a running service returned nil")
+			_ = r.Stop()
+			return out
+		}
+	}
 	for i, rq := range c.Reqs {
+		if c.NoReplyDup {
+			// the same message published without a reply subject is not a request: it is
+			// dropped (nothing runs, nothing is published)
+			rs.mu.Lock()
+			rs.cur = -1
+			rs.mu.Unlock()
+			before := conn.LogLen()
+			if n := conn.Deliver(rq.Subject, "", []byte(rq.Payload)); n > 0 {
+				listened += int64(n)
+				if err := r.WaitListened(listened); err != nil {
+					out.WaitErr = err
+					break
+				}
+				for _, e := range conn.LogFrom(before) {
+					if e.Kind == "pub" {
+						out.NoReplyPubs = append(out.NoReplyPubs, e.Subject+" "+string(e.Data))
+					}
+				}
+			}
+		}
 		rs.mu.Lock()
 		rs.cur = i
 		rs.mu.Unlock()
@@ -632,7 +666,7 @@ func payloadOK(p string) (ok, obj bool) {
 
 // ---- generators ----------------------------------------------------------------
 
-var patternPool = []string{"", "model", "item.$id", "item.$id.sub", "col.>", "a.new.set", "call.get", "$x.y", "*", "item.*.other", "deep.$a.$b.c", "get", "x.new", "item.fixed"}
+var patternPool = []string{"", "$t.$u", "model", "item.$id", "item.$id.sub", "col.>", "a.new.set", "call.get", "$x.y", "*", "item.*.other", "deep.$a.$b.c", "get", "x.new", "item.fixed"}
 
 // GenHandlers generates 1-3 handler specs with structurally distinct patterns.
 func GenHandlers() *rapid.Generator[[]HandlerSpec] {
@@ -675,12 +709,14 @@ func GenHandlers() *rapid.Generator[[]HandlerSpec] {
 	})
 }
 
-func instantiate(t *rapid.T, name, pattern string) string {
+func instantiate(t *rapid.T, name, pattern string, extra ...string) string {
 	if pattern == "" {
 		return name // the root resource, named like the service
 	}
 	var out []string
-	part := rapid.SampledFrom([]string{"1", "42", "a", "new", "get", "set", "x-y", "$z", "call", "ID"})
+	// (extra: literal tokens of the other handlers' patterns, so that placeholders also take
+	// values that lead into other branches of the mux, e.g. into a mounted sub-mux)
+	part := rapid.SampledFrom(append([]string{"1", "42", "a", "new", "get", "set", "x-y", "$z", "call", "ID"}, extra...))
 	for _, tk := range refmux.Tokens(pattern) {
 		switch refmux.Kind(tk) {
 		case refmux.Lit:
@@ -726,7 +762,9 @@ func GenPayload(rtype string) *rapid.Generator[ReqSpec] {
 			return rapid.Map(g, func(s string) string { b, _ := json.Marshal(s); return string(b) })
 		}
 		put("cid", strJSON(rapid.SampledFrom([]string{"abc123", "bmgqh3tk9g4cf9qdmv3g", "c", "", "a.b"})), 70)
-		put("params", rapid.OneOf(rapid.SampledFrom([]string{"5", "null", "{\"a\":1}", "[1, 2]", "\"x\"", "{ \"spaced\" : true }"}), gen.JSONText(2)), 60)
+		put("params", rapid.OneOf(rapid.SampledFrom([]string{"5", "null", "{\"a\":1}", "[1, 2]", "\"x\"", "{ \"spaced\" : true }",
+			// payloads of more than a kilobyte
+			"\"" + strings.Repeat("0123456789abcdef", 80) + "\"", "[" + strings.Repeat("1234567,", 200) + "0]"}), gen.JSONText(2)), 60)
 		put("token", rapid.OneOf(rapid.SampledFrom([]string{"7", "null", "{\"user\":\"a\",\"role\":[1,2]}", "\"t\""}), gen.JSONText(2)), 50)
 		put("query", strJSON(rapid.SampledFrom([]string{"", "a=b", "limit=5&from=é", "?", "x=%41&y"})), 50)
 		put("isHttp", rapid.SampledFrom([]string{"true", "false"}), 45)
@@ -787,7 +825,15 @@ func GenRequest(name string, hs []HandlerSpec, uniq string) *rapid.Generator[Req
 		case k == 1:
 			rname = rapid.SampledFrom([]string{name, "other.model", name + "x.model"}).Draw(t, "outside")
 		default:
-			rname = instantiate(t, name, h.Pattern)
+			var lits []string
+			for _, o := range hs {
+				for _, tk := range refmux.Tokens(o.Pattern) {
+					if refmux.Kind(tk) == refmux.Lit {
+						lits = append(lits, tk)
+					}
+				}
+			}
+			rname = instantiate(t, name, h.Pattern, lits...)
 		}
 		subj := rtype + "." + rname
 		method := ""
@@ -833,6 +879,8 @@ func GenCase() *rapid.Generator[Case] {
 		c := Case{Name: rapid.SampledFrom([]string{"svc", "svc", "a.b"}).Draw(t, "name"), Workers: rapid.SampledFrom([]int{1, 2, 4, 0}).Draw(t, "workers")}
 		c.NoLogger = rapid.IntRange(0, 4).Draw(t, "nologger") == 0
 		c.NoQueue = rapid.IntRange(0, 3).Draw(t, "noqueue") == 0
+		c.ServeTwice = rapid.IntRange(0, 5).Draw(t, "servetwice") == 0
+		c.NoReplyDup = rapid.IntRange(0, 4).Draw(t, "noreplydup") == 0
 		c.Handlers = GenHandlers().Draw(t, "handlers")
 		n := rapid.IntRange(1, 4).Draw(t, "nreq")
 		for i := 0; i < n; i++ {
